@@ -82,6 +82,9 @@ def discharge(obls, timeout_ms=20000, seed=0, retries=((60000, 1),), use_cvc5=Tr
     Portfolio per obligation: [hinted subset, full] x [E-matching only, z3 default]; then other seeds; then cvc5."""
     if os.environ.get("PYVC_NORETRY"):
         retries, use_cvc5 = (), False
+    # solver seeds are fixed: a proof obligation has no random choices to explore, and fixed seeds make the verdict on an
+    # unchanged tree reproducible (VERIF_SEED is recorded in the evidence but does not perturb the solvers)
+    seed = int(os.environ.get("PYVC_SOLVER_SEED", "0"))
     p = pool()
     assign_keys(obls)
     hints = load_hints() if hints is None else hints
@@ -132,7 +135,8 @@ def discharge(obls, timeout_ms=20000, seed=0, retries=((60000, 1),), use_cvc5=Tr
 
 def learn_hints(obls, hints, seed=0):
     p = pool()
-    cand = [ob for ob in obls if ob.status == "proved" and ob.kind != "canary" and "core-hint" not in ob.backend and ob.time > 1.0]
+    cand = [ob for ob in obls if ob.status == "proved" and ob.kind != "canary" and "core-hint" not in ob.backend
+            and (ob.time > 0.25 or ob.backend != "z3(ematch,seed+0)")]
     res = list(p.map(worker.run, [(ob.smt, int(min(60000, max(10000, 3000 * ob.time))), seed, "core") for ob in cand], chunksize=1))
     for ob, (st, t, core) in zip(cand, res):
         if st == "unsat":
